@@ -57,36 +57,57 @@ type operandCmp struct {
 
 func (w *World) operandComparisons(h *ssa.Function, left, right ssa.Value) []operandCmp {
 	var out []operandCmp
-	inLoop := loopBlocks(h)
-	allInstrs(h, func(in ssa.Instruction) {
-		bo, ok := in.(*ssa.BinOp)
-		if !ok || !isCmpOp(bo.Op) {
-			return
+	// the handler and the function literals it contains (a comparison handed to a helper as a closure still compares
+	// the handler's operands; a literal that runs once per node of a node-set counts as "inside the loop")
+	var fns []*ssa.Function
+	var addFn func(g *ssa.Function)
+	addFn = func(g *ssa.Function) {
+		fns = append(fns, g)
+		for _, a := range g.AnonFuncs {
+			addFn(a)
 		}
-		xl, xr := sides(bo.X, left, right)
-		yl, yr := sides(bo.Y, left, right)
-		var op token.Token
-		switch {
-		case xl && !xr && yr && !yl:
-			op = bo.Op
-		case xr && !xl && yl && !yr:
-			op = swapOp(bo.Op)
-		default:
-			return
-		}
-		kind := "other"
-		if b, ok := bo.X.Type().Underlying().(*types.Basic); ok {
+	}
+	addFn(h)
+	for _, g := range fns {
+		g := g
+		inLoop := loopBlocks(g)
+		allInstrs(g, func(in ssa.Instruction) {
+			bo, ok := in.(*ssa.BinOp)
+			if !ok || !isCmpOp(bo.Op) {
+				return
+			}
+			xl, xr := sides(bo.X, left, right)
+			yl, yr := sides(bo.Y, left, right)
+			var op token.Token
 			switch {
-			case b.Info()&types.IsFloat != 0:
-				kind = "float"
-			case b.Info()&types.IsString != 0:
-				kind = "string"
-			case b.Info()&types.IsBoolean != 0:
-				kind = "bool"
+			case xl && !xr && yr && !yl:
+				op = bo.Op
+			case xr && !xl && yl && !yr:
+				op = swapOp(bo.Op)
+			default:
+				return
+			}
+			kind := "other"
+			if b, ok := bo.X.Type().Underlying().(*types.Basic); ok {
+				switch {
+				case b.Info()&types.IsFloat != 0:
+					kind = "float"
+				case b.Info()&types.IsString != 0:
+					kind = "string"
+				case b.Info()&types.IsBoolean != 0:
+					kind = "bool"
+				}
+			}
+			guards := typeGuards(bo.Block(), left, right)
+		if g != h {
+			// a comparison inside a function literal: what is known where the literal is handed to its helper
+			if site := closureUseSite(g); site != nil {
+				guards = strings.TrimSpace(guards + " " + typeGuards(site.Block(), left, right))
 			}
 		}
-		out = append(out, operandCmp{Bo: bo, Op: op, Kind: kind, Guards: typeGuards(bo.Block(), left, right), InLoop: inLoop[bo.Block()]})
-	})
+		out = append(out, operandCmp{Bo: bo, Op: op, Kind: kind, Guards: guards, InLoop: inLoop[bo.Block()] || g != h})
+		})
+	}
 	return out
 }
 
@@ -293,6 +314,12 @@ func checkC05(w *World) {
 // derivesFromLoopElement: v is computed from set[i] with i a loop counter.
 func derivesFromLoopElement(v ssa.Value) bool {
 	return sliceContains(v, func(x ssa.Value) bool {
+		// the parameter of a predicate literal handed to an existential helper is that helper's loop element
+		if p, ok := x.(*ssa.Parameter); ok && p.Parent().Parent() != nil {
+			if site := closureUseSite(p.Parent()); site != nil && existentialHelper(staticCallee(site)) {
+				return true
+			}
+		}
 		ld, ok := x.(*ssa.UnOp)
 		if !ok {
 			return false
@@ -310,6 +337,47 @@ func isBoolCall(v ssa.Value) bool {
 // existentialShape checks the use of one operand comparison.
 func (w *World) existentialShape(c operandCmp, r *Roles) (bool, string) {
 	refs := referrers(c.Bo)
+	// the comparison is the value a function literal returns, and the literal is the predicate of an existential
+	// helper (`result = anyNode(set, func(n) bool { return a == f(n) })`) whose value is stored as the result
+	if lit := c.Bo.Parent(); lit.Parent() != nil {
+		returned := false
+		for _, rr := range refs {
+			if ret, ok := rr.(*ssa.Return); ok && len(ret.Results) == 1 && ret.Results[0] == ssa.Value(c.Bo) {
+				returned = true
+			}
+		}
+		site := closureUseSite(lit)
+		if returned && site != nil {
+			helper := staticCallee(site)
+			if helper != nil && existentialHelper(helper) {
+				stored := false
+				var flows func(v ssa.Value, d int)
+				flows = func(v ssa.Value, d int) {
+					if d > 5 {
+						return
+					}
+					for _, rr := range referrers(v) {
+						switch x := rr.(type) {
+						case *ssa.ChangeType:
+							flows(x, d+1)
+						case *ssa.MakeInterface:
+							flows(x, d+1)
+						case *ssa.Store:
+							if fa, ok := x.Addr.(*ssa.FieldAddr); ok && fa.Field == r.CtxResultField {
+								stored = true
+							}
+						}
+					}
+				}
+				flows(site, 0)
+				if stored {
+					return true, "the comparison is the predicate of " + helper.Name() + ", which answers true on the first node for which it holds and false after the last; its answer is stored as the result"
+				}
+				return false, "the answer of the existential helper is not stored as the result"
+			}
+			return false, "the function literal that makes the comparison is not handed to an existential helper (true on the first match, false after the loop)"
+		}
+	}
 	if c.InLoop {
 		if len(refs) != 1 {
 			return false, "in-loop comparison is not used as exactly one branch condition"
@@ -438,4 +506,71 @@ func directMethod(v ssa.Value) (ssa.Value, string) {
 		return nil, ""
 	}
 	return c.Call.Value, c.Call.Method.Name()
+}
+
+// closureUseSite: the call that receives the function literal lit as an argument (nil when there is not exactly one).
+func closureUseSite(lit *ssa.Function) *ssa.Call {
+	if lit.Parent() == nil {
+		return nil
+	}
+	var site *ssa.Call
+	n := 0
+	allInstrs(lit.Parent(), func(in ssa.Instruction) {
+		mc, ok := in.(*ssa.MakeClosure)
+		if ok && mc.Fn == ssa.Value(lit) {
+			for _, rr := range referrers(mc) {
+				if c, ok := rr.(*ssa.Call); ok {
+					site = c
+					n++
+				}
+			}
+		}
+		// a literal without free variables is a plain function value
+		if c, ok := in.(*ssa.Call); ok {
+			for _, a := range c.Call.Args {
+				if f, ok := a.(*ssa.Function); ok && f == lit {
+					site = c
+					n++
+				}
+			}
+		}
+	})
+	if n != 1 {
+		return nil
+	}
+	return site
+}
+
+// existentialHelper: fn loops over a slice parameter, returns the constant true on the true edge of a call of its
+// function parameter on the loop element, and the constant false after the loop.
+func existentialHelper(fn *ssa.Function) bool {
+	if fn == nil || len(fn.Blocks) == 0 || fn.Signature.Results().Len() != 1 {
+		return false
+	}
+	loops := loopBlocks(fn)
+	trueOnMatch, falseAfter, other := false, false, false
+	allInstrs(fn, func(in ssa.Instruction) {
+		ret, ok := in.(*ssa.Return)
+		if !ok {
+			return
+		}
+		c, isC := stripConv(ret.Results[0]).(*ssa.Const)
+		if !isC || c.Value == nil || c.Value.Kind() != constant.Bool {
+			other = true
+			return
+		}
+		if constant.BoolVal(c.Value) {
+			// reached on the true edge of match(element)
+			for _, a := range guardAtoms(ret.Block()) {
+				if call, ok := a.V.(*ssa.Call); ok && a.Pol && staticCallee(call) == nil {
+					if _, isParam := call.Call.Value.(*ssa.Parameter); isParam {
+						trueOnMatch = true
+					}
+				}
+			}
+		} else if !loops[ret.Block()] {
+			falseAfter = true
+		}
+	})
+	return trueOnMatch && falseAfter && !other
 }
